@@ -392,6 +392,7 @@ impl Prop for ConnProp {
             faults.extend(nodesim::gen_connect_faults(&mut rng, 2));
         }
         faults.extend(nodesim::gen_freeze_faults(seed, n, last + 2000));
+        nodesim::add_restarts(seed, &mut faults);
         let mut knobs = gen_node_knobs(&mut rng);
         let limit_p = if self.id == "C06" { 3 } else { 1 };
         if rng.chance(limit_p, 5) {
@@ -522,12 +523,52 @@ impl Prop for ConnProp {
                 let dead = dead.clone();
                 let log = log.clone();
                 let h = handle.clone();
-                nodesim::spawn_fault_driver(&handle, &net, &faults, Some(Arc::new(move |node, vanish| {
+                // a restarted node: same identity and listen address, no memory. For the oracles the
+                // node stays "dead" (its history ends at the kill); the new incarnation is part of the
+                // environment of the others: it dials every other node and answers like any node.
+                let restart: nodesim::RestartFn = {
+                    let (handle, log, knobs, case) = (handle.clone(), log.clone(), knobs.clone(), case.clone());
+                    let keep: Arc<Mutex<Vec<UnboundedSender<NodeCmd>>>> = Arc::new(Mutex::new(Vec::new()));
+                    Arc::new(move |i: usize| {
+                        if i < 1 || i > n {
+                            return;
+                        }
+                        let prev = node::CURRENT_NODE.with(|c| c.replace(i));
+                        let mut b = base_config(&handle, seed, i, &knobs);
+                        for (idx, name) in ["/vsim/probe/a", "/vsim/probe/b"].iter().enumerate() {
+                            let (tx, rx) = unbounded_channel();
+                            // the sender is dropped: the probe only reacts to the network
+                            drop(tx);
+                            b = b.with_user_protocol(Box::new(Probe { node: i, idx, name: ProtocolName::from(*name), seed, nodes_total: total, log: log.clone(), handle: handle.clone(), rx, inbound_hold_ms: case["inbound_hold_ms"].as_u64().unwrap_or(50), half_close: 0 }));
+                        }
+                        match Litep2p::new(b.build()) {
+                            Ok(mut l) => {
+                                for j in 1..=n {
+                                    if j != i {
+                                        l.add_known_address(peer_id(seed, j), std::iter::once(full_addr(seed, j)));
+                                    }
+                                }
+                                handle.event(format!("n{i} restarted"));
+                                handle.probe("node-restarted");
+                                let tx = spawn_app_loop(&handle, log.clone(), seed, total, i, l);
+                                for j in 1..=n {
+                                    if j != i {
+                                        let _ = tx.send(NodeCmd::Dial { peer: j, fin: false });
+                                    }
+                                }
+                                keep.lock().unwrap().push(tx);
+                            }
+                            Err(e) => handle.event(format!("n{i} restart failed: {e:?}")),
+                        }
+                        node::CURRENT_NODE.with(|c| c.set(prev));
+                    })
+                };
+                nodesim::spawn_fault_driver_ex(&handle, &net, &faults, Some(Arc::new(move |node, vanish| {
                     if node >= 1 && node <= n && !dead.lock().unwrap().contains_key(&node) {
                         dead.lock().unwrap().insert(node, vanish);
                         push(&log, &h, node, K::Killed);
                     }
-                })));
+                })), Some(restart));
             }
             // ops driver + final phase
             {
